@@ -33,6 +33,14 @@
      zone     "" or an IANA zone name (DST-bearing): the caller expresses `start` in that zone instead of the fixed
               offset tz.  The requested lifetime is a number of SECONDS, so the end instant is start + dur seconds
               of elapsed time whatever the zone's clock does in between
+     zone2    "" or an IANA zone name: new_cert's END datetime is expressed in that zone (instead of tz2).  Start and end are
+              two independent datetimes: they may be the two passes of ONE wall-clock reading of a repeated hour
+     sw, sf   the start AS THE CALLER WRITES IT in `zone`: wall-clock reading (an Inst read on the zone's clock) and PEP 495
+     ew, ef   fold; likewise the end in `zone2`.  For the zones and years CertTimeZone knows, ArgsDenote(q) ties them to
+              the instants: the reading with its fold denotes q.start (resp. start + dur).  A reading of the repeated
+              interval denotes two instants, told apart by fold only; a reading inside the gap denotes the instant PEP 495
+              assigns.  The enumerated requests are BUILT from the readings (InZone, FromWall in NdnPacketsCertCfg) and the
+              executor constructs the datetime from (reading, fold); recorded requests carry the reading the driver used
      host     the time zone of the HOST PROCESS (TZ / tzset) while the function runs.  A naive datetime is UTC by
               the library's convention (self_sign's epoch, the CLI), not host-local time, so the expected
               certificate does not depend on host either
@@ -41,7 +49,7 @@
    MetaInfo{ContentType = KEY, FreshnessPeriod = 3 600 000}, Content = exactly the bytes given (ContentExpect),
    SignatureInfo{type, KeyLocator = signer's, ValidityPeriod{NotBefore, NotAfter}}, SignatureValue of the
    actual length with every enclosing length exact.                                             *)
-EXTENDS NdnPackets, CertTime
+EXTENDS NdnPackets, CertTimeZone
 
 TVersion == 54
 SelfComp == [t |-> 8, l |-> 4]          \* "self"
@@ -96,6 +104,13 @@ NotAfter(q) == { Render(i) : i \in NotAfterInsts(q) }
 InScope(q) == \A i \in NotAfterInsts(q) : InstLeq(i, MaxInst)
 ValidityOk(q, nb, na) == nb = NotBefore(q) /\ na \in NotAfter(q)
 
+\* the datetimes handed over denote the requested instants (zones and years outside CertTimeZone's scope: not constrained here,
+\* the executor converts the instant with zoneinfo as before)
+EndInst(q) == AddSec(q.start, q.dur)
+StartDenotes(q) == q.zone = "" \/ ~KnownAt(q.zone, q.sw) \/ InstOf(ZoneOf(q.zone), q.sw, q.sf) = q.start
+EndDenotes(q) == q.zone2 = "" \/ ~KnownAt(q.zone2, q.ew) \/ InstOf(ZoneOf(q.zone2), q.ew, q.ef) = EndInst(q)
+ArgsDenote(q) == q.fn \in {"derive", "new_cert"} => StartDenotes(q) /\ (q.fn = "new_cert" => EndDenotes(q))
+
 \* byte ranges of the two instants inside the wire
 ValidityRanges(q) ==
   LET fl == Flat(Final(CertCfg(q)))
@@ -124,6 +139,7 @@ LawCert(q) ==
   \* the whole certificate except its outer TL and its SignatureValue is signed (so are both instants and the locator)
   /\ SignedRange(c) = <<Iv(Hdr(F), Size(F) - Size(F.kids[5]))>>
   /\ Inside(ValidityRanges(q).nb, SignedRange(c)[1]) /\ Inside(ValidityRanges(q).na, SignedRange(c)[1])
+  /\ ArgsDenote(q) /\ q.sf \in {0, 1} /\ q.ef \in {0, 1}
   /\ Len(NotBefore(q)) = 15 /\ ParseInst(NotBefore(q)) = [ok |-> TRUE, i |-> NotBeforeInst(q)]
   /\ \A i \in NotAfterInsts(q) : /\ ParseInst(Render(i)) = [ok |-> TRUE, i |-> i]
                                   /\ InstLeq(NotBeforeInst(q), i)
